@@ -442,21 +442,30 @@ def w_case(case: dict) -> dict:
 
 
 def structural_cases(ctx, lengths=None, contents=None) -> list:
+    """thorough: the complete product triples x lengths x contents.  quick: every triple x every length with
+    the counter payload; the other content classes x every length on the first triple of every mixin
+    composition (content handling is a property of the composed code, the family only indexes the
+    database); create_config route at one unaligned and one aligned length (0x39, 0x200) and on the
+    composition representatives."""
     lengths = lengths or M.LENGTHS
     contents = contents or M.CONTENTS
+    quick = ctx.tier == "quick"
     cases = []
+    seen_comp: set = set()
     for fam in M.families():
         for t in M.triples(fam):
+            comp = M.composition(t)
+            comp_rep = comp not in seen_comp
+            seen_comp.add(comp)
             for L in lengths:
                 for c in contents:
-                    if (ctx.tier == "quick" and c.startswith("reloc-like") and L != 0x200
-                            and not M.has(t, "RelocTable")):
-                        continue  # quick: classes without relocation-table code see the look-alike at one length
+                    if quick and c != "counter" and not comp_rep:
+                        continue
                     case = {"fam": fam, "rev": "latest", "tgt": t["tgt"], "auth": t["auth"], "len": L,
                             "content": c, "opts": {}, "seed": ctx.seed}
                     if L == 0x40 and c == "counter":
                         case["classify"] = True
-                    elif c != "counter" and ctx.tier == "quick":
+                    elif quick and (c != "counter" or not (comp_rep or L in (0x39, 0x200))):
                         case["want"] = ["parse", "reexport"]
                     cases.append(case)
     return cases
@@ -542,8 +551,8 @@ def run(ctx) -> None:
     table = DimTable()
     ctx.rule = ("structural product: every (family, target, authentication) triple of the database x "
                 f"{len(M.LENGTHS)} payload-length classes x {len(M.CONTENTS)} content classes at the base option set "
-                "(quick: the two relocation-table look-alike contents at every length only for classes with "
-                "relocation-table code, at length 0x200 for the others), "
+                "(quick: every triple x every length with the counter payload, the other contents x every length on the "
+                "first triple of every mixin composition), "
                 "every further revision at the base payload; option lattice: all option sets with <= "
                 f"{k} departures (+ full product of the certificate dimensions in thorough) on "
                 f"{'one representative' if quick else 'up to three representatives'} of every equivalence class; "
